@@ -58,8 +58,8 @@ func otherKinds(startID int) []*Obj {
 	var r []*Obj
 	add := func(o *Obj) { o.ID = id; id++; o.RV = "1"; r = append(r, o) }
 	for ns := 1; ns <= 2; ns++ {
-		for _, sel := range []Map{nil, {{1, 1}}, {{1, 1}, {2, 2}}, {{2, 3}}} {
-			add(&Obj{Kind: KService, NS: ns, NM: 1 + len(sel), Labels: Map{{1, 1}}, Spec: SService, Sel: sel})
+		for _, sel := range []Map{nil, {{1, 1}}, {{1, 1}, {2, 2}}, {{2, 3}}, {{1, 0}}, {{2, 0}}, {{1, 1}, {2, 0}}, {{3, 0}}} {
+			add(&Obj{Kind: KService, NS: ns, NM: id % 7, Labels: Map{{1, 1}}, Spec: SService, Sel: sel})
 		}
 		for ik := 1; ik <= 2; ik++ {
 			for inm := 1; inm <= 2; inm++ {
@@ -108,6 +108,52 @@ func atoms(small bool) []*Filt {
 	return r
 }
 
+// permGroups: for every workload constructor, sources in different
+// namespaces whose name order is the reverse of their namespace order, in
+// every permutation.  Terms of one group are built from the same set of
+// sources and must compare equal.
+func permGroups() [][]*Filt {
+	var groups [][]*Filt
+	id := 2000
+	mkw := func(kind, ns, nm int) *Obj {
+		id++
+		switch kind {
+		case KService:
+			return &Obj{ID: id, Kind: kind, NS: ns, NM: nm, RV: "1", Spec: SService, Sel: Map{{1, nm}}}
+		case KRC:
+			return &Obj{ID: id, Kind: kind, NS: ns, NM: nm, RV: "1", Spec: SRC, Sel: Map{{1, nm}}}
+		case KIngress:
+			return &Obj{ID: id, Kind: kind, NS: ns, NM: nm, RV: "1", Spec: SIngress, Backend: nm}
+		}
+		return &Obj{ID: id, Kind: kind, NS: ns, NM: nm, RV: "1", Spec: SWorkload, LSel: &LSel{Labels: Map{{1, nm}}}}
+	}
+	perms3 := [][]int{{0, 1, 2}, {0, 2, 1}, {1, 0, 2}, {1, 2, 0}, {2, 0, 1}, {2, 1, 0}}
+	for _, kt := range [][2]int{{KService, FServicePods}, {KRC, FRCPods}, {KRS, FWorkloadPods}, {KDeployment, FWorkloadPods},
+		{KDaemonSet, FWorkloadPods}, {KStatefulSet, FWorkloadPods}, {KJob, FWorkloadPods}, {KIngress, FIngressServices}} {
+		kind, tag := kt[0], kt[1]
+		src := []*Obj{mkw(kind, 1, 2), mkw(kind, 2, 1), mkw(kind, 1, 1)}
+		var g3, g2 []*Filt
+		for _, p := range perms3 {
+			g3 = append(g3, &Filt{Tag: tag, Objs: []*Obj{src[p[0]], src[p[1]], src[p[2]]}})
+		}
+		g2 = append(g2, &Filt{Tag: tag, Objs: []*Obj{src[0], src[1]}}, &Filt{Tag: tag, Objs: []*Obj{src[1], src[0]}})
+		groups = append(groups, g3, g2)
+	}
+	return groups
+}
+
+func hasFn(f *Filt) bool {
+	if f.Tag == FFn {
+		return true
+	}
+	for _, c := range f.Children {
+		if hasFn(c) {
+			return true
+		}
+	}
+	return false
+}
+
 // typed atoms (C17, C19)
 func typedAtoms() []*Filt {
 	svc := func(id, ns, nm int, sel Map) *Obj {
@@ -141,6 +187,11 @@ func typedAtoms() []*Filt {
 		{Tag: FSelectorMatch, Map: Map{{1, 1}}},
 		{Tag: FSelectorMatch, Map: Map{{1, 1}, {2, 2}}},
 		{Tag: FSelectorMatch, Map: Map{{1, 1}, {2, 3}}},
+		{Tag: FSelectorMatch, Map: Map{{1, 0}}},
+		{Tag: FSelectorMatch, Map: Map{{2, 0}}},
+		{Tag: FSelectorMatch, Map: Map{{1, 1}, {2, 0}}},
+		{Tag: FSelectorMatch, Map: Map{{1, 1}, {3, 0}}},
+		{Tag: FSelectorMatch, Map: Map{{2, 1}}},
 		{Tag: FServicePods, Objs: nil},
 		{Tag: FServicePods, Objs: []*Obj{s1}},
 		{Tag: FServicePods, Objs: []*Obj{s1, s2, s3}},
@@ -326,6 +377,13 @@ func runC17(c *Ctx) {
 	for _, a := range all {
 		terms = append(terms, a)
 	}
+	groupOf := map[int]int{} // term index -> permutation group
+	for gi, g := range permGroups() {
+		for _, f := range g {
+			groupOf[len(terms)] = gi + 1
+			terms = append(terms, f)
+		}
+	}
 	for _, a := range all {
 		terms = append(terms, not(a), fn(a))
 	}
@@ -394,6 +452,16 @@ func runC17(c *Ctx) {
 				eq := goEqual(left[i], right[j])
 				row[b] = enc.B(eq)
 				c.Rep.Evaluations++
+				if !eq && i < len(terms) && j < len(terms) {
+					// comparable filters built twice from the same arguments compare
+					// equal; workload filters regardless of the order of their sources
+					if i == j && !hasFn(terms[i]) {
+						c.Violation("", "a comparable filter built twice from the same arguments does not compare equal", map[string]interface{}{"filter": encs[i].String()})
+					}
+					if gi, ok := groupOf[i]; ok && groupOf[j] == gi {
+						c.Violation("", "workload filters built from the same sources in a different order do not compare equal", map[string]interface{}{"left": encs[i].String(), "right": encs[j].String()})
+					}
+				}
 				if eq {
 					equalPairs++
 					if i < len(terms) && j < len(terms) {
